@@ -95,6 +95,17 @@ def w_filter(case):
         viol.append({'sub': 'repeat', 'message': 'log-likelihood differs when '
                      'evaluated again on the same array (%s)' % lab,
                      'expected': first, 'observed': again, 'behaviour': 'repeat'})
+    # ... and the caller changes that array in place before evaluating again
+    shared[0] *= 1.02
+    e_m = expected(y, shared.copy())
+    g_m = [f.compute_log_likelihood(shared), f.compute_sensitivities(shared)[0]]
+    ntr += 2
+    if not all(tol.close(g, e_m) for g in g_m):
+        viol.append({'sub': 'inplace', 'message': 'after the simulated measurements '
+                     'were changed in place the evaluation with the same array '
+                     'object is not the documented density at the new values (%s)'
+                     % lab, 'expected': e_m, 'observed': g_m,
+                     'behaviour': 'inplace'})
     got = f.compute_log_likelihood(sim.copy())
     ntr += 1
     if not tol.close(got, exp):
